@@ -178,9 +178,18 @@ def run(chk, binary):
             s1 = "repeat 2 {\n repeat %d {\n%s\n}\n move \"l\"\n}\n" % (k, b)
             s2 = (("%s\n" % b) * k + 'move "l"\n') * 2
         elif rng.random() < 0.5:
-            # the count comes from a variable (0 included: the body is then not run at all)
-            s1 = "let k = %d\nrepeat $k {\n%s\n}\n" % (k, b)
+            # the count comes from a variable (0 included: the body is then not run at all); the name may be one a
+            # built-in has too - a variable of the script's own goes first
+            vn = rng.choice(["k", "k", "n", "count", "lines", "line", "col", "pos"])
+            s1 = "let %s = %d\nrepeat $%s {\n%s\n}\n" % (vn, k, vn, b)
             s2 = ("%s\n" % b) * k
+            if rng.random() < 0.4:
+                # the body keeps variables of its own: a counter of the enclosing scope, and a name that shadows an outer one
+                # (the outer one is not read again: written out, the body's let replaces it)
+                pre = "let i = 0\nlet n = 7\n"
+                vb = 'i += 1\nlet n = 1\nn += $i\ncut "${{n}}l"\n' + b
+                s1 = pre + "let %s = %d\nrepeat $%s {\n%s\n}\ncut \"${{i}}l\"\n" % (vn, k, vn, vb) if vn not in ("n",) else pre + "repeat %d {\n%s\n}\ncut \"${{i}}l\"\n" % (k, vb)
+                s2 = pre + ("%s\n" % vb) * k + 'cut "${{i}}l"\n'
         else:
             s1 = "repeat %d {\n%s\n}\n" % (k, b)
             s2 = ("%s\n" % b) * k
